@@ -323,7 +323,16 @@ class SpecGen:
         if rect is None:
             return None
         sheet, r1, c1, r2, c2 = rect
-        if k['intersection'] and roll > 0.88 and (r2 > r1 or c2 > c1):
+        single = r2 == r1 and c2 == c1
+        if (k['intersection'] and roll > 0.88 and r2 > r1 and c2 > c1 and
+                k.get('single_intersection', True) and rnd.random() < 0.3):
+            # a column part and a row part of the rectangle that meet in one cell
+            col, row_ = (sheet, r1, c2, r2, c2), (sheet, r2, c1, r2, c2)
+            corner = self.rect_addrs((sheet, r2, c2, r2, c2))
+            self.declared_extra += [a for a in self.rect_addrs(col) + self.rect_addrs(row_)
+                                    if a not in corner]
+            return self.range_text(*col) + ' ' + self.range_text(*row_), corner
+        if k['intersection'] and roll > 0.88 and not single:
             # two overlapping rectangles inside the defined area whose
             # intersection is rect: widen one to the top/left, the other is rect
             ra = (sheet, max(1, r1 - 1), max(1, c1 - 1), r2, c2)
@@ -345,6 +354,10 @@ class SpecGen:
             # at run time: (A1:B2):C3 reads the bounding rectangle A1:C3
             col1, colm, col2 = (rc_coord(1, c1)[:-1], rc_coord(1, c2 - 1)[:-1] if c2 - 1 >= c1 else None,
                                 rc_coord(1, c2)[:-1])
+            if colm and rnd.random() < 0.4:
+                # chained: A3:(B1):C1 - the second operator spans what the first one gave
+                txt = f'{col1}{r2}:({colm}{r1}):{col2}{r1}'
+                return txt, self.rect_addrs(rect)
             if colm:
                 txt = f'({col1}{r1}:{colm}{r2 - 1 if r2 - 1 >= r1 else r1}):{col2}{r2}'
                 return txt, self.rect_addrs(rect)
